@@ -3,8 +3,34 @@ other in one process), the configuration cases (class lookup with changing regis
 from . import config, events
 
 
+def check_savers(seed):
+    """two runs of one configuration and seed in one process, each with its own MarketStepSaver: the second saver holds exactly what the first one held"""
+    import contextlib, copy, io, random
+    from pams.logs.market_step_loggers import MarketStepSaver
+    from pams.runners import SequentialRunner
+    from . import sim
+    cfg = sim.make_cfg(random.Random(seed), events=(), long_steps=False)
+    recs = []
+    for _ in range(2):
+        saver = MarketStepSaver()
+        r = SequentialRunner(settings=copy.deepcopy(cfg), prng=random.Random(seed), logger=saver)
+        for c in (sim.RandAgent, sim.RandHFT, sim.Probe):
+            r.class_register(c)
+        with contextlib.redirect_stdout(io.StringIO()):
+            r.main()
+        recs.append([dict(x) for x in saver.market_step_logs])
+    if recs[0] != recs[1]:
+        return f"MarketStepSaver of the second run holds {len(recs[1])} records, the first run's saver held {len(recs[0])} (same configuration and seed)"
+    return None
+
+
 def search(seed, tier, obligation, hints):
     cases = 0
+    for sd in range(3 if tier == "quick" else 20):
+        cases += 1
+        why = check_savers(sd)
+        if why:
+            return {"found": True, "input": {"savers": sd}, "observed": {"clause": why}, "witness_key": "shared_state|savers", "cases": cases}
     for mod, tag in ((events, "events"), (config, "config")):
         r = mod.search(seed, tier, "", hints)
         cases += r.get("cases", 0)
@@ -16,6 +42,9 @@ def search(seed, tier, obligation, hints):
 
 
 def replay(inp):
+    if "savers" in inp:
+        why = check_savers(inp["savers"])
+        return {"violated": bool(why), "clause": why}
     if "events" in inp:
         return events.replay(inp["events"])
     return config.replay(inp["config"])
